@@ -112,8 +112,8 @@ def _work1(item):
     return idx, r, t, model, backend
 
 
-SECOND_Z3_MS = int(os.environ.get('PYVC_Z3_SECOND_MS', '60000'))
-SECOND_CVC5_MS = int(os.environ.get('PYVC_CVC5_SECOND_MS', '60000'))
+SECOND_Z3_MS = int(os.environ.get('PYVC_Z3_SECOND_MS', '120000'))
+SECOND_CVC5_MS = int(os.environ.get('PYVC_CVC5_SECOND_MS', '120000'))
 
 
 def _work(item):
@@ -123,6 +123,12 @@ def _work(item):
     if r in ('sat', 'unsat') or r == 'disagree' or not SECOND_Z3_MS:
         return idx, r, t, model, backend
     smt2, must = item[1], item[2]
+    sliced = item[8] if len(item) > 8 else None
+    if must == 'valid' and sliced is not None:
+        r0, t0_, _ = _run_z3(sliced, SECOND_Z3_MS, False, ematch_only=True)
+        t += t0_
+        if r0 == 'unsat':
+            return idx, 'unsat', t, None, 'z3(premises in the cone of influence, second try)'
     r2, t2, m2 = _run_z3(smt2, SECOND_Z3_MS, True)
     t += t2
     if r2 in ('sat', 'unsat'):
